@@ -11,6 +11,23 @@
 //! generated. Interleavings with the SQLite worker threads are sampled, not enumerated; the oracle
 //! does not depend on timing.
 //!
+//! Shared transactions ("Transaction II" in the `SqliteStore` docs: several processes write and
+//! read within one transaction): about 60 % of the transactions have 1–3 bursts of 1–3 helper
+//! calls (`insert_operation` into a log of their own, `associate`, `get_latest_entry_tx`). A burst
+//! is started immediately before a step of the writer or immediately before the writer commits /
+//! rolls back / drops its permit (for a failing step: between the failing call and the early
+//! return): each call is polled once – it now holds the transaction mutex with its statement sent,
+//! or queues on the mutex – and finishes in a task of its own while the writer goes on, so helper
+//! calls are in flight at every kind of end, including cancellation of the writer's future.
+//! No helper call is ever *started* after the writer ended its transaction (the documentation
+//! leaves consistency between sharing processes to them; a late call would fail or land in the
+//! next transaction, which is the helper's business, not the store's). The transaction mutex is
+//! FIFO, so every started helper call is executed inside the writer's transaction before the
+//! commit / rollback takes it: its rows belong to that transaction (all-or-nothing with it).
+//! An error returned by a helper call is not asserted (recorded, label `helper_call_error`; its
+//! row may then be present or absent in a committed transaction); only a helper write of a fresh
+//! row answering "already there" is reported, like for the writer itself.
+//!
 //! Oracle, after all tasks finished:
 //! * rows of every transaction whose `commit` returned `Ok` are all present;
 //! * nothing of any transaction that never called `commit` is present;
@@ -79,10 +96,29 @@ enum HelperCall {
 /// immediately before the writer's step `at` – or, for `at >= steps.len()`, immediately before the
 /// writer commits / rolls back / drops its permit; for a failing step, between the failing call and
 /// the early return. They are still in flight when the writer goes on.
+///
+/// `at == AT_CANCEL` places the burst where the generated cancellation of the writer's future
+/// aims (before that step, or at the end), so that cancellations regularly meet helper calls.
 #[derive(Clone, Debug, Serialize, Deserialize)]
 struct Burst {
     at: u8,
     calls: Vec<HelperCall>,
+}
+
+const AT_CANCEL: u8 = 254;
+
+impl Tx {
+    /// Step index before which a burst is started; `steps.len()` = at the end.
+    fn burst_pos(&self, at: u8) -> usize {
+        let end = self.steps.len();
+        let pos = match (at, &self.cancel) {
+            (AT_CANCEL, Some(CancelAt { phase: Phase::Step(k), .. })) => *k as usize,
+            (AT_CANCEL, Some(CancelAt { phase: Phase::End, .. })) => end,
+            (AT_CANCEL, _) => 0,
+            (at, _) => at as usize,
+        };
+        pos.min(end)
+    }
 }
 
 #[derive(Clone, Debug, Serialize, Deserialize)]
@@ -149,8 +185,8 @@ struct TxLog {
     h_launched: u32,
     /// Helper calls started and not yet returned (they hold the transaction mutex or queue on it).
     h_pending: u32,
-    /// Set when the transaction ended while helper calls were pending: how it ended.
-    h_in_flight_at: Option<&'static str>,
+    /// Filled when the transaction ended while helper calls were pending: how it ended.
+    h_in_flight_at: Vec<&'static str>,
     h_errors: u32,
 }
 
@@ -306,8 +342,8 @@ async fn launch(
 fn note_end(sh: &Sh, tag: Tag, how: &'static str) {
     let mut g = sh.lock().unwrap();
     let l = g.txs.get_mut(&tag).unwrap();
-    if l.h_pending > 0 && l.h_in_flight_at.is_none() {
-        l.h_in_flight_at = Some(how);
+    if l.h_pending > 0 {
+        l.h_in_flight_at.push(how);
     }
 }
 
@@ -335,6 +371,8 @@ struct CancelAt2<F> {
     /// Never drop the future while it is inside `commit()` / `rollback()` (open finding K-C10).
     spare_end: bool,
     spared: Arc<Mutex<bool>>,
+    sh: Sh,
+    tag: Tag,
 }
 
 impl<F: Future> Future for CancelAt2<F> {
@@ -364,6 +402,9 @@ impl<F: Future> Future for CancelAt2<F> {
                     now > this.at.phase
                 };
                 if hit {
+                    // Helper calls of this transaction still hold (or queue on) the transaction
+                    // mutex while the writer is dropped?
+                    note_end(&this.sh, this.tag, "cancel");
                     this.fut = None;
                     Poll::Ready(None)
                 } else {
@@ -456,6 +497,10 @@ async fn run_tx(store: SqliteStore, sh: Sh, tag: Tag, tx: Tx, all_tags: Arc<Vec<
 
     let vk = author(tag).verifying_key();
     let mut next_row = 0u32;
+    // Helper processes sharing this transaction (see `launch`).
+    let snapshot = Arc::new(snapshot);
+    let mut next_k = 0u32;
+    let n_steps = tx.steps.len();
     for (n, step) in tx.steps.iter().enumerate() {
         *phase.lock().unwrap() = Phase::Step(n as u8);
         match &tx.end {
@@ -463,16 +508,21 @@ async fn run_tx(store: SqliteStore, sh: Sh, tag: Tag, tx: Tx, all_tags: Arc<Vec<
                 // A failing step inside the transaction, propagated with `?` semantics.
                 let r: Result<(), SqliteError> = store.tx(async |_tx| Err(SqliteError::TransactionMissing)).await;
                 if r.is_err() {
+                    launch(&store, &sh, tag, &tx.helpers, |at| tx.burst_pos(at) == n, &mut next_k, &all_tags, &snapshot).await;
+                    note_end(&sh, tag, "error_return");
                     drop(permit);
                     return Ok(());
                 }
             }
             End::DropPermit { after } if *after as usize == n => {
+                launch(&store, &sh, tag, &tx.helpers, |at| tx.burst_pos(at) == n, &mut next_k, &all_tags, &snapshot).await;
+                note_end(&sh, tag, "permit_drop");
                 drop(permit);
                 return Ok(());
             }
             _ => {}
         }
+        launch(&store, &sh, tag, &tx.helpers, |at| tx.burst_pos(at) == n, &mut next_k, &all_tags, &snapshot).await;
         match step {
             Step::Op { yields: y } => {
                 yields(*y).await;
@@ -535,17 +585,21 @@ async fn run_tx(store: SqliteStore, sh: Sh, tag: Tag, tx: Tx, all_tags: Arc<Vec<
         }
     }
     *phase.lock().unwrap() = Phase::End;
+    launch(&store, &sh, tag, &tx.helpers, |at| tx.burst_pos(at) == n_steps, &mut next_k, &all_tags, &snapshot).await;
     match tx.end {
         End::Commit => {
+            note_end(&sh, tag, "commit");
             sh.lock().unwrap().txs.get_mut(&tag).unwrap().commit_called = true;
             store.commit(permit).await.map_err(|e| format!("commit of transaction {tag} failed: {e}"))?;
             sh.lock().unwrap().txs.get_mut(&tag).unwrap().committed = true;
         }
         End::Rollback => {
+            note_end(&sh, tag, "rollback");
             store.rollback(permit).await.map_err(|e| format!("rollback of transaction {tag} failed: {e}"))?;
         }
         End::ErrorReturn { .. } | End::DropPermit { .. } => {
             // `after` beyond the last step: the permit is dropped at the end.
+            note_end(&sh, tag, if matches!(tx.end, End::DropPermit { .. }) { "permit_drop" } else { "error_return" });
             drop(permit);
         }
     }
@@ -567,6 +621,8 @@ async fn writer(store: SqliteStore, sh: Sh, w: usize, txs: Vec<Tx>, all_tags: Ar
                     phase,
                     spare_end,
                     spared: spared.clone(),
+                    sh: sh.clone(),
+                    tag,
                 }
                 .await
             }
@@ -630,13 +686,19 @@ async fn drive(env: &Env, case: &Case, dir: &CaseDir, spare_end: bool) -> Result
     }
     for (w, h) in handles {
         if let Err(e) = h.await {
-            let msg = if e.is_panic() {
-                let p = e.into_panic();
-                p.downcast_ref::<&str>().map(|s| s.to_string()).or_else(|| p.downcast_ref::<String>().cloned()).unwrap_or_default()
-            } else {
-                "cancelled".to_string()
-            };
-            return Err(format!("writer task {w} did not run to its end: panic: {msg}"));
+            return Err(format!("writer task {w} did not run to its end: panic: {}", panic_text(e)));
+        }
+    }
+    // Helper calls still finishing (each was started while its transaction was open).
+    loop {
+        let hs = std::mem::take(&mut sh.lock().unwrap().helper_tasks);
+        if hs.is_empty() {
+            break;
+        }
+        for h in hs {
+            if let Err(e) = h.await {
+                return Err(format!("a helper call sharing a transaction did not run to its end: panic: {}", panic_text(e)));
+            }
         }
     }
     {
@@ -647,17 +709,28 @@ async fn drive(env: &Env, case: &Case, dir: &CaseDir, spare_end: bool) -> Result
     }
 
     // A later transaction can start, write and commit.
-    let final_tag: Tag = 99;
-    let permit = store.begin().await.map_err(|e| format!("final begin failed: {e}"))?;
-    let op = row_op(final_tag, 0);
-    let r = store
-        .insert_operation(&op.hash, &op, &(final_tag as u64))
-        .await
-        .map_err(|e| format!("final insert failed: {e}"))?;
-    ensure!(r, "final insert reported false");
-    store.commit(permit).await.map_err(|e| format!("final commit failed: {e}"))?;
-    let got: Option<Operation<()>> = store.get_operation(&op.hash).await.map_err(|e| format!("final read failed: {e}"))?;
-    ensure!(got.is_some(), "row of the final transaction is missing after its commit");
+    // (In a task of its own, so that a panic inside `begin` is reported with its message.)
+    let final_tx = {
+        let store = store.clone();
+        tokio::spawn(async move {
+            let final_tag: Tag = 99;
+            let permit = store.begin().await.map_err(|e| format!("final begin failed: {e}"))?;
+            let op = row_op(final_tag, 0);
+            let r = store
+                .insert_operation(&op.hash, &op, &(final_tag as u64))
+                .await
+                .map_err(|e| format!("final insert failed: {e}"))?;
+            ensure!(r, "final insert reported false");
+            store.commit(permit).await.map_err(|e| format!("final commit failed: {e}"))?;
+            let got: Option<Operation<()>> = store.get_operation(&op.hash).await.map_err(|e| format!("final read failed: {e}"))?;
+            ensure!(got.is_some(), "row of the final transaction is missing after its commit");
+            Ok::<(), String>(())
+        })
+    };
+    match final_tx.await {
+        Ok(r) => r?,
+        Err(e) => return Err(format!("a later transaction (after all writers finished) could not run: panic: {}", panic_text(e))),
+    }
 
     // Committed state, read through the pool.
     let mut g = std::mem::take(&mut *sh.lock().unwrap());
@@ -679,10 +752,25 @@ async fn drive(env: &Env, case: &Case, dir: &CaseDir, spare_end: bool) -> Result
             .await
             .map_err(|e| format!("get_cursor failed: {e}"))?
             .and_then(|c| c.log_height(&vk, &(*tag as u64)).copied());
-        let nothing = ops.is_empty() && assocs.is_empty() && cursor.is_none();
-        let everything = ops == log.ops && assocs == log.assocs.iter().copied().collect::<BTreeSet<_>>() && cursor == log.cursor;
+        // Rows written by helper processes sharing the transaction.
+        let h_entries = <SqliteStore as LogStore<Operation<()>, VerifyingKey, u64, SeqNum, Hash>>::get_log_entries(&store, &vk, &helper_log(*tag), None, None)
+            .await
+            .map_err(|e| format!("get_log_entries failed: {e}"))?;
+        let h_ops: BTreeSet<u32> = h_entries.unwrap_or_default().iter().map(|(o, _)| o.header.seq_num).collect();
+        let want_h_ops: BTreeSet<u32> = log.h_ops.iter().copied().collect();
+        let maybe_h_ops: BTreeSet<u32> = log.h_maybe_ops.iter().copied().collect();
+        let want_assocs: BTreeSet<u64> = log.assocs.iter().copied().collect();
+        let maybe_assocs: BTreeSet<u64> = log.h_maybe_assocs.iter().copied().collect();
+        let nothing = ops.is_empty() && assocs.is_empty() && cursor.is_none() && h_ops.is_empty();
+        // (`maybe` sets are empty unless a helper call returned an error.)
+        let everything = ops == log.ops
+            && cursor == log.cursor
+            && assocs.is_superset(&want_assocs)
+            && assocs.difference(&want_assocs).all(|j| maybe_assocs.contains(j))
+            && h_ops.is_superset(&want_h_ops)
+            && h_ops.difference(&want_h_ops).all(|j| maybe_h_ops.contains(j));
         let state = format!(
-            "stored rows: ops {ops:?} assocs {assocs:?} cursor {cursor:?}; written inside the transaction: ops {:?} assocs {:?} cursor {:?}",
+            "stored rows: ops {ops:?} assocs {assocs:?} cursor {cursor:?} rows of sharing processes {h_ops:?}; written inside the transaction: ops {:?} assocs {:?} cursor {:?} rows of sharing processes {want_h_ops:?}",
             log.ops, log.assocs, log.cursor
         );
         if log.committed {
@@ -737,7 +825,14 @@ fn check_inner(env: &Env, case: &Case, spare_end: bool) -> CaseResult {
     let g = r?;
     let kinds: BTreeSet<&'static str> = g.txs.values().filter(|l| l.begun).map(|l| l.kind).collect();
     let committed = g.txs.values().any(|l| l.committed);
-    let aborted = g.txs.values().any(|l| l.begun && !l.committed && (!l.ops.is_empty() || !l.assocs.is_empty() || l.cursor.is_some()));
+    let aborted = g.txs.values().any(|l| l.begun && !l.committed && (!l.ops.is_empty() || !l.assocs.is_empty() || l.cursor.is_some() || !l.h_ops.is_empty()));
+    let in_flight: BTreeSet<&'static str> = g.txs.values().flat_map(|l| l.h_in_flight_at.iter().copied()).collect();
+    let helpers = g.txs.values().any(|l| l.h_launched > 0);
+    let helper_errors = g.txs.values().any(|l| l.h_errors > 0);
+    // A transaction that ended without commit while calls of sharing processes were in flight,
+    // followed by a committed one? (`txs` is not ordered in time; the final transaction always
+    // follows, so any such abort is followed by a begin.)
+    let aborted_with_helpers_in_flight = g.txs.values().any(|l| !l.committed && !l.h_in_flight_at.is_empty());
     let ok = CaseOk::nontrivial(case.writers.len() >= 2 && committed && aborted && g.overlapped)
         .label_if(g.overlapped, "overlapping_writers")
         .label_if(kinds.contains("commit"), "commit")
@@ -747,6 +842,14 @@ fn check_inner(env: &Env, case: &Case, spare_end: bool) -> CaseResult {
         .label_if(kinds.contains("cancelled"), "cancelled")
         .label_if(kinds.contains("cancelled in commit"), "cancelled_in_commit")
         .label_if(aborted, "aborted_with_writes")
+        .label_if(helpers, "shared_tx_helpers")
+        .label_if(in_flight.contains("commit"), "helper_in_flight_at_commit")
+        .label_if(in_flight.contains("rollback"), "helper_in_flight_at_rollback")
+        .label_if(in_flight.contains("error_return"), "helper_in_flight_at_error_return")
+        .label_if(in_flight.contains("permit_drop"), "helper_in_flight_at_permit_drop")
+        .label_if(in_flight.contains("cancel"), "helper_in_flight_at_cancel")
+        .label_if(aborted_with_helpers_in_flight, "aborted_with_helper_in_flight")
+        .label_if(helper_errors, "helper_call_error")
         .label_if(case.file_backed, "file_backed")
         .label_if(!case.file_backed, "in_memory_one_connection")
         .label_if(case.multi_thread, "multi_thread_runtime");
@@ -773,11 +876,25 @@ fn tx() -> impl Strategy<Value = Tx> {
         4 => Just(Phase::End),
     ];
     let cancel = (phase, 1u8..=3).prop_map(|(phase, nth)| CancelAt { phase, nth });
-    (0u8..4, prop::collection::vec(step, 0..6), end, prop::option::weighted(0.3, cancel)).prop_map(|(pre_yields, steps, end, cancel)| Tx {
+    let hcall = prop_oneof![
+        4 => Just(HelperCall::Op),
+        2 => Just(HelperCall::Assoc),
+        2 => any::<u16>().prop_map(|about| HelperCall::ReadLatest { about }),
+    ];
+    // 40 % of the bursts sit at the end of the transaction (commit / rollback / drop), 20 % where
+    // the cancellation aims, the others before a step (0–5 steps; an index beyond the last step
+    // also means "at the end").
+    let burst = (prop_oneof![2 => Just(u8::MAX), 1 => Just(AT_CANCEL), 2 => 0u8..6], prop::collection::vec(hcall, 1..=3)).prop_map(|(at, calls)| Burst { at, calls });
+    let helpers = prop_oneof![
+        2 => Just(Vec::new()),
+        3 => prop::collection::vec(burst, 1..=3),
+    ];
+    (0u8..4, prop::collection::vec(step, 0..6), end, prop::option::weighted(0.3, cancel), helpers).prop_map(|(pre_yields, steps, end, cancel, helpers)| Tx {
         pre_yields,
         steps,
         end,
         cancel,
+        helpers,
     })
 }
 
@@ -809,12 +926,14 @@ fn probe(env: &Env) -> (bool, String) {
         steps: vec![Step::Op { yields: 0 }, Step::Op { yields: 0 }],
         end: End::Commit,
         cancel: Some(CancelAt { phase: Phase::End, nth: 1 }),
+        helpers: Vec::new(),
     };
     let tx_after = Tx {
         pre_yields: 0,
         steps: vec![Step::ReadLatest { about: 0 }, Step::Op { yields: 0 }],
         end: End::Commit,
         cancel: None,
+        helpers: Vec::new(),
     };
     let case = Case {
         file_backed: true,
@@ -852,7 +971,7 @@ pub fn run(mut ctx: Ctx) -> ! {
     ctx.run_prop(
         Part::new(
             "writers_file_backed",
-            "2-5 writer tasks x 1-4 transactions x 0-5 steps (tagged insert_operation / associate / set_cursor, in-transaction reads about any transaction) ending in commit / rollback / failing step + early return / permit drop after j steps / cancellation of the whole future at a generated await point (nth suspension in begin / step k / commit-or-rollback), on a file-backed store (16 connections), current-thread runtime, generated start order and yields; non-trivial = at least two writers overlapped in time (one asked for a transaction while another held or awaited one), one transaction committed and one that had written rows was aborted",
+            "2-5 writer tasks x 1-4 transactions x 0-5 steps (tagged insert_operation / associate / set_cursor, in-transaction reads about any transaction) ending in commit / rollback / failing step + early return / permit drop after j steps / cancellation of the whole future at a generated await point (nth suspension in begin / step k / commit-or-rollback); ~60 % of the transactions are shared with helper processes (1-3 bursts of 1-3 calls insert_operation / associate / get_latest_entry_tx, each polled once - holding or queued on the transaction mutex - right before a writer step or right before the commit / rollback / permit drop / early return, finishing in tasks of their own), on a file-backed store (16 connections), current-thread runtime, generated start order and yields; non-trivial = at least two writers overlapped in time (one asked for a transaction while another held or awaited one), one transaction committed and one that had written rows was aborted",
             600,
             6_000,
         )
